@@ -290,7 +290,54 @@ let pretty_case (s : X.t) : string =
         match print doc (nat_of_int (int_of_string (X.atom w))) with
         | Some l -> "(" ^ d_cps l ^ ")"
         | None -> "(out-of-fuel)") ws in
-    "(printed " ^ String.concat " " outs ^ ")"
+    let fw = List.map (fun w ->
+        match flat_width doc (nat_of_int (int_of_string (X.atom w))) with
+        | Some n -> string_of_int (int_of_nat n) | None -> "-") ws in
+    "(printed " ^ String.concat " " outs ^ ") (flat (" ^ d_cps (flatten doc) ^ ")) (fw " ^ String.concat " " fw ^ ")"
+  | _ -> "(bad-case)"
+
+
+(* ---- FormatFrag.v: the data-literal fragment ---- *)
+let opt_cps = function X.List (_ :: items) -> Some (cps_of items) | _ -> None
+let rec fterm_of (s : X.t) : fterm =
+  match s with
+  | X.List [X.Atom "i"; n] -> FInt (z_of_string (X.atom n))
+  | X.List (X.Atom "id" :: items) -> FIdent (cps_of items)
+  | X.List (X.Atom "s" :: items) -> FStr (cps_of items)
+  | X.List (X.Atom "t" :: name :: fields) ->
+    FTuple (opt_cps name, List.map (function
+        | X.List (X.Atom "f" :: label :: terms) -> FField (opt_cps label, List.map fterm_of terms)
+        | _ -> failwith "fragment field") fields)
+  | _ -> failwith ("fragment term " ^ X.to_string s)
+let rec d_fterm (t : fterm) : string =
+  match t with
+  | FInt z -> "(i " ^ string_of_z z ^ ")"
+  | FIdent n -> "(id " ^ d_cps n ^ ")"
+  | FStr s -> "(s " ^ d_cps s ^ ")"
+  | FTuple (name, fields) ->
+    "(t " ^ (match name with None -> "-" | Some n -> "(n " ^ d_cps n ^ ")")
+    ^ String.concat "" (List.map (fun (FField (label, terms)) ->
+        " (f " ^ (match label with None -> "-" | Some n -> "(l " ^ d_cps n ^ ")")
+        ^ String.concat "" (List.map (fun t -> " " ^ d_fterm t) terms) ^ ")") fields) ^ ")"
+let d_fchain (c : fterm list) : string = "(c " ^ String.concat " " (List.map d_fterm c) ^ ")"
+let d_back (r : fterm list option) : string = match r with Some c -> "(ok " ^ d_fchain c ^ ")" | None -> "(err)"
+
+let frag_case (s : X.t) : string =
+  match s with
+  | X.List [X.Atom "fragfmt"; X.List (X.Atom "c" :: terms)] ->
+    let c = List.map fterm_of terms in
+    if not (wf_chain c) then "(frag ill-formed)"
+    else begin
+      (* the round trip at other widths than the one the real formatter uses: model only *)
+      let allw = List.for_all (fun w ->
+          match format_frag c (nat_of_int w) with
+          | Some out -> parse_frag out = Some c
+          | None -> false) [0; 7; 20; 41; 51; 80; 100; 300] in
+      match format_frag c (nat_of_int 100) with
+      | Some out -> Printf.sprintf "(frag (out %s) (back %s))%s" (d_cps out) (d_back (parse_frag out)) (if allw then "" else " ALL-WIDTHS-FAILED")
+      | None -> "(frag out-of-fuel)"
+    end
+  | X.List (X.Atom "fragparse" :: items) -> "(frag (back " ^ d_back (parse_frag (cps_of items)) ^ "))"
   | _ -> "(bad-case)"
 
 let other_case (mode : string) (s : X.t) : string =
@@ -299,6 +346,7 @@ let other_case (mode : string) (s : X.t) : string =
   | "rawmulti" -> rawmulti_case s
   | "rawsingle" -> rawsingle_case s
   | "pretty" -> pretty_case s
+  | "frag" -> frag_case s
   | _ -> "(unsupported-mode)"
 
 let () =
